@@ -121,6 +121,9 @@ PUBLIC = [P.B("windowsizemsg", w=80, h=24), P.B("windowsizemsg", w=0, h=0), P.B(
 def public_family(res, tier, rnd):
     """one sender, messages of the public built-in types (window sizes incl. repeats and 0x0, focus, blur, resume) mixed with
     user messages: Update gets exactly what was sent, in order - a message the loop swallows or de-duplicates is lost"""
+    okb, out = C.build_harness()
+    if not okb:
+        raise C.Fail("harness build failed (does /repo still compile with -tags verif?):\n" + out[-3000:])
     def key(m):
         if "u" in m:
             return "u:%d" % m["u"]
